@@ -18,6 +18,7 @@ import (
 	"github.com/btcsuite/btcd/btcutil/bech32"
 	"github.com/btcsuite/btcd/chaincfg"
 	"github.com/btcsuite/btcd/txscript"
+	sdk "github.com/cosmos/cosmos-sdk/types"
 	"github.com/ethereum/go-ethereum/core/types/goattypes"
 	bitcoinkeeper "github.com/goatnetwork/goat/x/bitcoin/keeper"
 	bitcointypes "github.com/goatnetwork/goat/x/bitcoin/types"
@@ -149,10 +150,39 @@ func netAccepts(n netID, a wdAddr) bool {
 
 var c17ScriptMutations atomic.Int64
 
+// c17PayHandedOut pays the handed-out address (and data script) in a two-transaction block
+// whose hash is voted, and submits the deposit; it returns a description when it is refused.
+func c17PayHandedOut(w *depWorld, ctx sdk.Context, k sim.BtcKey, evm []byte, ver uint32, resp *bitcointypes.QueryDepositAddressResponse) string {
+	kp := w.n.App.BitcoinKeeper
+	addr, err := btcutil.DecodeAddress(resp.Address, &chaincfg.RegressionNetParams)
+	if err != nil {
+		return "" // reported by the caller's own decoding check
+	}
+	script, err := txscript.PayToAddrScript(addr)
+	must(err)
+	outs := []sim.BtcOut{{Value: 123456, Script: script}}
+	if ver == 1 {
+		outs = append(outs, sim.BtcOut{Value: 0, Script: resp.OpReturnScript})
+	}
+	tx := sim.BtcTx(4711, outs...)
+	const height = c03Mature
+	blk := sim.NewBtcBlock(height, sim.DSHA([]byte("c17-prev")), [][]byte{sim.CoinbaseTx(height, sim.BtcOut{Value: 50, Script: sim.RefSystemScript(k)}), tx})
+	tctx, _ := ctx.CacheContext()
+	must(w.n.App.RelayerKeeper.AddNewKey(tctx, relayertypes.EncodePublicKey(k.Public())))
+	must(kp.BlockHashes.Set(tctx, height, blk.Hash()))
+	msg := &bitcointypes.MsgNewDeposits{Proposer: w.n.Cfg.Proposer.AddrStr(),
+		Deposits:     []*bitcointypes.Deposit{{Version: ver, BlockNumber: height, TxIndex: 1, NoWitnessTx: tx, OutputIndex: 0, IntermediateProof: blk.Proof(1), EvmAddress: evm, RelayerPubkey: k.Public()}},
+		BlockHeaders: []*bitcointypes.BlockHeader{{Height: height, Raw: blk.Header}}}
+	if _, err, p := w.n.Deliver(tctx, msg); err != nil || p != nil {
+		return fmt.Sprintf("MsgNewDeposits paying %s (v%d, evm %x) is refused: %v", resp.Address, ver, evm, err)
+	}
+	return ""
+}
+
 var c17Pads = []string{" ", "\t", "\n", "\r", "\x00"}
 
 func runC17(r *mc.Run) {
-	r.Rule = "deposit side: 11 relayer keys (6 ECDSA of both parities, 5 x-only) x 6 EVM addresses x 4 networks x versions 0/1 x 3 magic prefixes: address and data script from the real Query/DepositAddress handler and from the builders -> script via btcd -> the real verifier must accept for the generating (key, address) and reject for every other pair of the alphabet (full cross product), and must reject every single-byte substitution (255 values x every position), truncation and extension of the handed-out scripts for the generating pair; system address: for every key the p2wpkh / p2tr script of the key is accepted by VerifySystemAddressScript and every single-byte substitution, truncation, extension, other key's script is refused; withdrawal side: hand-encoded p2pkh/p2sh/p2wpkh/p2wsh/p2tr addresses of 4 networks, pay-to-pubkey strings, every single-character substitution from a 4-symbol menu, blank / tab / newline / CR / NUL padding at either end, case change, extension, truncation, decoded for every network by the real DecodeBtcAddress and end-to-end through ProcessBridgeRequest"
+	r.Rule = "deposit side: 11 relayer keys (6 ECDSA of both parities, 5 x-only) x 6 EVM addresses x 4 networks x versions 0/1 x 3 magic prefixes: address and data script from the real Query/DepositAddress handler and from the builders -> script via btcd -> the real verifier must accept (and, on regtest, a transaction paying it must be credited through the real MsgNewDeposits path) for the generating (key, address) and reject for every other pair of the alphabet (full cross product), and must reject every single-byte substitution (255 values x every position), truncation and extension of the handed-out scripts for the generating pair; system address: for every key the p2wpkh / p2tr script of the key is accepted by VerifySystemAddressScript and every single-byte substitution, truncation, extension, other key's script is refused; withdrawal side: hand-encoded p2pkh/p2sh/p2wpkh/p2wsh/p2tr addresses of 4 networks, pay-to-pubkey strings, every single-character substitution from a 4-symbol menu, blank / tab / newline / CR / NUL padding at either end, case change, extension, truncation, decoded for every network by the real DecodeBtcAddress and end-to-end through ProcessBridgeRequest"
 	r.Assumptions = []string{"btcd address/script encoding trusted as reference decoder for mutated strings", "hash functions trusted"}
 	keys, evms := c17Keys(6, 5), c17Evms(6)
 	if r.Thorough() {
@@ -206,7 +236,16 @@ func runC17(r *mc.Run) {
 		must(kp.Params.Set(ctx, p))
 		must(kp.Pubkey.Set(ctx, *j.k.Public()))
 		resp, qerr := qs.DepositAddress(ctx, &bitcointypes.QueryDepositAddress{Version: j.ver, EvmAddress: "0x" + hex.EncodeToString(j.evm)})
+		// "accepted by deposit verification": a Bitcoin transaction paying what was handed out goes
+		// through the real MsgNewDeposits path (message validation, SPV proof, script verification)
+		e2e := ""
+		if qerr == nil && j.net.name == "regtest" && bytes.Equal(j.mg, magics[0]) {
+			e2e = c17PayHandedOut(w, ctx, j.k, j.evm, j.ver, resp)
+		}
 		mu.Unlock()
+		if e2e != "" {
+			viol("deposit-to-handed-out-address-refused", e2e)
+		}
 		r.Transitions.Add(1)
 		r.Validated.Add(1)
 		if j.ver == 1 && j.k.Schnorr {
